@@ -217,6 +217,10 @@ def _source(case_src):
         pts[("nasal_antiformants", "oral_formants_amplitudes", f"oral_formants_amplitudes [{i}]")] = mk()
     pts[("frication_formants", "frication_formants_amplitudes", "frication_formants_amplitudes [2]")] = mk()
     pts[("delta_formants", "bandwidths", "bandwidths [1]")] = mk()
+    # the SIBLINGS of the amplitude tiers hold points too (Praat's own names nest: "formants" is a part of "oral_formants_amplitudes"): addressing one
+    # intermediate tier by its name addresses that tier
+    pts[("nasal_antiformants", "formants", "formants [1]")] = mk()
+    pts[("nasal_antiformants", "bandwidths", "bandwidths [1]")] = mk()
     spec = {"xmax": xmax, "xmin": xmin, "nform": nform, "points": pts}
     fn = os.path.join(scratch_dir(), "c19-src.KlattGrid")
     with open(fn, "w", encoding="utf-8") as fd:
